@@ -10,7 +10,11 @@ tie:    translate/storagecfg.py regenerates Generated/StorageCfg.lean from Stora
         build with 2/4/8 threads copy-constructing, linking, slicing, destroying views of one shared Matrix/SymmMatrix + private
         arrays, the creator leaving while views are alive, a last-link stress; default build through soft links only;
         n_links()/n_storage_objects() after join; deterministic schedules on real threads vs the Lean machine.
-oracle: storage counts after join, bitwise solo/parallel results, ThreadSanitizer, python bookkeeping of the views.
+        Soft links of EVERY class that has soft_link() (Array rank 1..3, all seven SpecialMatrix kinds) through const and non-const
+        receivers + links/copies/views of them, empty and rejected views of the shared data (see ctx.notes soft_link_workload);
+        the configuration census of storagecfg.py runs without and with -fopenmp (_OPENMP).
+oracle: a soft link and everything derived from it never changes n_links() and owns no Storage (sampled solo and in threads);
+        storage counts after join, bitwise solo/parallel results, ThreadSanitizer, python bookkeeping of the views.
 """
 import json
 import vbuild, vcheck
@@ -75,6 +79,17 @@ def run(ctx, replay):
                        "threads) compared line by line with the Lean machine and a python bookkeeping; + the Lean n_links_ machine run over ALL "
                        "interleavings of small programs in the three remove_link shapes; distinct = different (build, threads, seed, rounds) or "
                        "schedule" % (n_ts, hi, n_soft, nsched + nsched // 2))
+    ctx.notes["soft_link_workload"] = ("c14soft (default build, plain int counter): the workers' handles are soft links taken by main through "
+                                       "const and non-const receivers (Matrix: odd/even k, SymmMatrix: even/odd k); 1 round in 3 a worker takes "
+                                       "its OWN soft links from a shared object drawn uniformly from {Vector, Matrix, Array3D, SquareMatrix, "
+                                       "DiagMatrix, TridiagMatrix, PentadiagMatrix, SymmMatrix, LowerMatrix, UpperMatrix, rank-specific views}: "
+                                       "always BOTH overloads (const and non-const receiver), then link, link to the const temporary, copy "
+                                       "(both copy constructors), diag_vector, submatrix_on_diagonal, slices, empty and rejected views of the "
+                                       "soft link; invariant sampled after every group, solo and in the threads: n_links() of the shared data "
+                                       "unchanged and every derived object has storage()==0.  c14ts/c14soft: 2 rounds in 9 are empty views "
+                                       "(zero extent in the first / second position, copies and links of them) and rejected views (negative "
+                                       "extent, out-of-range submatrix; exception caught in the thread); link counts of Matrix and SymmMatrix "
+                                       "before/after and exactly-once free checked after the join")
     ctx.cov["exhaustive"] = False
     ctx.assumptions += [
         "PARTIAL: freed-exactly-once and race freedom are proved for an abstract machine whose atomic steps are those Storage.h prescribes "
